@@ -1451,6 +1451,9 @@ static bool logged_flush(Subject &s, FlushSpec f)
   L.add(kFlushRet, id, r ? 1 : 0);
   return r;
 }
+// Shutdown is called with every timeout class too (zero, 1 us, 1 ms, 50 ms, max): whatever the value, it must
+// export everything produced before it (from seeded change C02-w6-2); one class per history, chosen from the seed
+static vf::raw_atomic<int> g_shutdown_timeout_class{4};
 static bool logged_shutdown(Subject &s, int kind)
 {
   auto &L     = EventLog::get();
@@ -1460,7 +1463,7 @@ static bool logged_shutdown(Subject &s, int kind)
   if (kind == 1)
     s.destroy();
   else
-    r = s.shutdown(kMaxUs);
+    r = s.shutdown(FlushSpec{g_shutdown_timeout_class.load(std::memory_order_relaxed)}.value());
   L.add(kShutdownRet, id, r ? 1 : 0);
   return r;
 }
@@ -1485,6 +1488,13 @@ static void run_history(uint64_t seed, bool thorough)
                     c.delay_ms <= 50 && vf::mix(seed, 0x5d6a7eULL) % 6 == 0;
   if (c.shutdown_gate)
     c.shutdown_mode = 0;
+  {
+    uint64_t m = vf::mix(seed, 0x5bd1e995ULL);
+    int cls    = (m % 3 == 0) ? static_cast<int>((m >> 8) % 4) : 4;  // one history in three: a finite or zero timeout
+    g_shutdown_timeout_class.store(cls, std::memory_order_relaxed);
+    if (cls != 4)
+      R.count("histories_shutdown_finite_or_zero_timeout");
+  }
   auto script  = std::make_shared<Script>();
   script->seed = seed;
   unsigned em  = static_cast<unsigned>(r.below(10));
